@@ -230,10 +230,10 @@ func run(c *Case) (string, string) {
 	}
 	if c.PluginSigner != "" {
 		caps := []pf.Capability{pf.CapabilitySignatureGenerator}
-		if c.PluginSigner == "envelope" {
+		if strings.HasPrefix(c.PluginSigner, "envelope") {
 			caps = []pf.Capability{pf.CapabilityEnvelopeGenerator}
 		}
-		ps, err := signer.NewPluginSigner(&mocks.HonestSignPlugin{Caps: caps, Chain: ch, KeySpec: "EC-256"}, "key-1", map[string]string{"signer-level": "configuration", "k": "signer"})
+		ps, err := signer.NewPluginSigner(&mocks.HonestSignPlugin{Caps: caps, Chain: ch, KeySpec: "EC-256", DropAnnotations: c.PluginSigner == "envelope-drops-annotations"}, "key-1", map[string]string{"signer-level": "configuration", "k": "signer"})
 		if err != nil {
 			return "harness", err.Error()
 		}
@@ -381,6 +381,10 @@ func run(c *Case) (string, string) {
 		}
 		if view := viewOf(); !reflect.DeepEqual(view, view0) {
 			return "C11:repository-view-of-artifact-changed:" + site, fmt.Sprintf("after call %d the repository resolves the artifact to %+v, before any call to %+v", call, view, view0)
+		}
+		if refuse == "" && c.PluginSigner == "envelope-drops-annotations" && len(repo.resolved) > 0 && (len(repo.resolved[len(repo.resolved)-1].Annotations) > 0 || len(c.Metadata) > 0) {
+			// the plugin signed something else than "the resolved descriptor plus the user metadata"
+			refuse = "plugin-signed-without-annotations"
 		}
 		if refuse != "" {
 			if err == nil {
@@ -540,7 +544,7 @@ func TestC11_Sequences(t *testing.T) {
 		}
 		c.Ref = rp.Pick(rt, "ref", "tag", "tag", "digest", "full-tag", "full-digest", "digest-elsewhere")
 		c.SignerAnn = rp.Pick(rt, "signerAnnotations", "", "", "disjoint", "clashing", "clashing")
-		c.PluginSigner = rp.Pick(rt, "pluginSigner", "", "", "raw", "envelope")
+		c.PluginSigner = rp.Pick(rt, "pluginSigner", "", "", "raw", "envelope", "envelope-drops-annotations")
 		if c.Ref == "digest-elsewhere" && c.Repo != "scripted" {
 			c.Ref = "tag"
 		}
